@@ -380,6 +380,8 @@ CORPUS = [
          theta=[0.6], x0=[1.1, 0.8, 1.3]),
     dict(nS=1, nP=2, eqs=["2/3*p0*x0*x0/(1+x0**2)-1/2*p1*p0*x0-x0**2/3"], theta=[0.4, 0.7], x0=[0.9]),
     dict(nS=1, nP=1, eqs=["2/3*p0*x0*x0/(1+x0**2)-x0**2/3"], theta=[0.5], x0=[0.9]),
+    # every parameter is a plain additive source term (the parameter gradient is a constant matrix)
+    dict(nS=2, nP=2, eqs=["p0-x0*x1", "p1+x0*x1-x1"], theta=[0.5, 0.3], x0=[0.9, 0.5]),
     # a declared parameter that occurs in no equation (a reporting rate, say), not last in the list: its column of G is zero and
     # the columns of the others stay where they are
     dict(nS=2, nP=3, eqs=["1/2*p0*x1*x0/(1+x0**2)-x0**2/3", "3/5*p2*x0*x0/(1+x0**2)+1/7*p2*p0*x1-x1**2/4"],
